@@ -25,6 +25,7 @@
 #include <sys/time.h>
 #include <sys/epoll.h>
 #include <sys/select.h>
+#include <signal.h>
 
 #ifndef V_MAXSZ
 #define V_MAXSZ ((size_t)1 << 40)   /* object sizes are below this by precondition of the specs */
